@@ -152,7 +152,7 @@ fn c03_4b_mpsc_boundary_pop() {
 //@ bound: one concrete schedule at offset 61 (fast-forwarded white box): 4 pushes, then bulk_pops: 3 values up to the block end, 1 value, none; symbolic payloads
 //@ safety-counts: yes
 //@ timeout: 2400
-//@ tier: thorough
+//@ tier: experimental
 //@ mem: 28
 //@ functions: mpsc::Queue::push, Queue::bulk_pop, Queue::fast_bulk_pop, mpsc::bulk_end, BlockNode::copy_to_bulk
 //@ statement: bulk_pop never crosses a block end and hands over the old block exactly once
@@ -275,7 +275,7 @@ fn c03_6c_mpsc_peek_waits_for_reserved_slot() {
 //@ kind: K3
 //@ complete: yes
 //@ timeout: 2400
-//@ tier: thorough
+//@ tier: experimental
 //@ mem: 28
 //@ functions: mpsc::Queue::bulk_pop, Queue::fast_bulk_pop, BlockNode::copy_to_bulk, BlockNode::get
 //@ statement: bulk_pop likewise spins on a reserved, unwritten slot and does not return
